@@ -16,6 +16,11 @@ for d in seeded/*/; do
     C10-m5) checks="C02";;     # the change is in index.SearchStreams (shadowing of old versions)
     C01-m6) checks="C01 C07";;  # the change is in Writer.AddIndex (merge of a chatty stream)
     C10-m6) checks="C10 C02";;  # the change is in index.buildSearchObjects (three stacked indexes)
+    C08-m6) checks="C10";;
+    C08-m7) checks="C10";;
+    C01-m7) checks="C01 C07";;
+    C12-m7) checks="C12 C15";;
+    C16-m7) checks="C16 C15";;
     C09-m5) continue;;          # obsolete: its scenario (data query on a tag with converters) is rejected since fix 2d7… (see DESIGN 10.6)
   esac
   python3 lib/mutants.py run $n $checks 2>&1 | grep -v KNOWN | cut -c1-240 >> $OUT.tmp
